@@ -107,7 +107,7 @@ impl Spec {
             4 | 5 => sp.a < sp.n && sp.b <= sp.n,
             _ => true,
         };
-        if ok && sp.n <= 200 {
+        if ok && sp.n <= 70000 {
             Some(sp)
         } else {
             None
@@ -156,7 +156,10 @@ pub fn order_specs(n_max: usize) -> Vec<Spec> {
 
 pub const DIMS: [&str; 8] = ["variants", "tlang_variants", "attributes", "keyword_values", "keywords", "tfield_values", "tfields", "tags"];
 
-pub const ALPHABET_SIZE: usize = 96;
+/// elements per generated alphabet (936 keyword keys and 260 tfield keys exist in all)
+pub const ALPHABET_SIZE: usize = 1100;
+/// the main ladder's harness probes this many elements of every alphabet (more than its longest list)
+pub const PROBE_PREFIX: usize = 100;
 
 struct Alphabets {
     variants: Vec<S>,
@@ -174,16 +177,17 @@ fn alphabets() -> &'static Alphabets {
     static A: OnceLock<Alphabets> = OnceLock::new();
     A.get_or_init(|| {
         let m = ALPHABET_SIZE;
-        let sorted = |mut v: Vec<String>| -> Vec<S> {
+        let sorted_n = |mut v: Vec<String>, want: usize| -> Vec<S> {
             v.sort();
             v.dedup();
-            assert!(v.len() >= m, "alphabet too small: {}", v.len());
-            v.truncate(m);
+            assert!(v.len() >= want, "alphabet too small: {}", v.len());
+            v.truncate(want);
             v.into_iter().map(leak).collect()
         };
+        let sorted = |v: Vec<String>| -> Vec<S> { sorted_n(v, m) };
         // variants: 4 characters with a leading digit, and 5..8 alphanumerics, mixed
         let mut vs = vec![];
-        for i in 0..m + 8 {
+        for i in 0..2 * m {
             let x = (i * 7919 + 17) % 100000;
             vs.push(match i % 4 {
                 0 => format!("{}{:03}", i % 10, x % 1000),
@@ -194,7 +198,7 @@ fn alphabets() -> &'static Alphabets {
         }
         // attribute / type / tvalue words: 3..8 alphanumerics, never "true"
         let mut ws = vec![];
-        for i in 0..m + 8 {
+        for i in 0..2 * m {
             let x = (i * 6007 + 5) % 100000;
             ws.push(match i % 4 {
                 0 => format!("{}{:02}", (b'a' + (i % 26) as u8) as char, x % 100),
@@ -209,18 +213,17 @@ fn alphabets() -> &'static Alphabets {
                 uk.push(format!("{}{}", a as char, b as char));
             }
         }
-        // thin the 936 keys to a spread-out subset
-        let uk: Vec<String> = uk.into_iter().enumerate().filter(|(i, _)| i % 9 == 4).map(|x| x.1).collect();
+
         let mut tk = vec![];
         for a in b'a'..=b'z' {
             for d in b'0'..=b'9' {
                 tk.push(format!("{}{}", a as char, d as char));
             }
         }
-        let tk: Vec<String> = tk.into_iter().enumerate().filter(|(i, _)| i % 2 == 1).map(|x| x.1).collect();
+
         // private tags: 1..8 alphanumerics
         let mut tg = vec![];
-        for i in 0..m + 8 {
+        for i in 0..2 * m {
             let x = (i * 4973 + 29) % 100000;
             tg.push(match i % 5 {
                 0 => format!("{}", (b'a' + (i % 26) as u8) as char),
@@ -230,16 +233,16 @@ fn alphabets() -> &'static Alphabets {
                 _ => format!("{}{:07}", (b'a' + ((i * 7) % 26) as u8) as char, x * 31 % 10000000),
             });
         }
-        Alphabets { variants: sorted(vs), words: sorted(ws), ukeys: sorted(uk), tkeys: sorted(tk), tags: sorted(tg) }
+        Alphabets { variants: sorted(vs), words: sorted(ws), ukeys: sorted_n(uk, 936), tkeys: sorted_n(tk, 260), tags: sorted(tg) }
     })
 }
 
 /// the generated variant alphabet (sorted ascending), for other checks that want long lists
 pub fn variant_alphabet() -> &'static [S] {
-    &alphabets().variants
+    elems("variants")
 }
 
-fn elems(dim: &str) -> &'static [S] {
+fn elems_big(dim: &str) -> &'static [S] {
     let a = alphabets();
     match dim {
         "variants" | "tlang_variants" => &a.variants,
@@ -250,6 +253,31 @@ fn elems(dim: &str) -> &'static [S] {
     }
 }
 
+/// the ladder alphabet of a dimension: PROBE_PREFIX elements spread evenly over the big (sorted)
+/// alphabet, so that short lists already mix every length and class pattern
+fn elems(dim: &str) -> &'static [S] {
+    static SMALL: OnceLock<Vec<(&'static str, Vec<S>)>> = OnceLock::new();
+    let all = SMALL.get_or_init(|| {
+        DIMS.iter()
+            .map(|d| {
+                let big = elems_big(d);
+                let stride = (big.len() / PROBE_PREFIX).max(1);
+                (*d, (0..PROBE_PREFIX).map(|j| big[j * stride]).collect())
+            })
+            .collect()
+    });
+    &all.iter().find(|x| x.0 == dim).expect("dimension").1
+}
+
+/// the alphabet a list of n elements is drawn from
+fn elems_for(dim: &str, n: usize) -> &'static [S] {
+    if n + 3 <= PROBE_PREFIX {
+        elems(dim)
+    } else {
+        elems_big(dim)
+    }
+}
+
 /// the text of one list in its grammatical position
 pub fn input_text(dim: &str, sp: &Spec) -> String {
     text_of(dim, &sp.indices())
@@ -257,7 +285,8 @@ pub fn input_text(dim: &str, sp: &Spec) -> String {
 
 /// the text of an arbitrary index list (indices into the dimension's alphabet)
 pub fn text_of(dim: &str, idx: &[usize]) -> String {
-    let al = elems(dim);
+    let n_for = idx.iter().copied().max().map(|m| m + 1).unwrap_or(0);
+    let al = elems_for(dim, n_for);
     let words = &alphabets().words;
     let list: Vec<String> = match dim {
         // a keyword / tfield is "key-value"; every fifth key stands alone (value `true`)
@@ -401,7 +430,6 @@ pub fn count_bounds(ctx: &Ctx) -> (usize, usize) {
 // ------------------------------------------------------------------------------------------
 
 fn count_harness() -> Harness {
-    let a = alphabets();
     // probes: every element of the alphabets that can occur (and, because the alphabets are longer
     // than any list, always some that do not)
     Harness {
@@ -409,11 +437,11 @@ fn count_harness() -> Harness {
         inits: vec![("default".to_string(), default_state())],
         menu: vec![],
         probes: Probes {
-            attrs: a.words.clone(),
-            keys: a.ukeys.clone(),
-            tkeys: a.tkeys.clone(),
-            tags: a.tags.clone(),
-            variants: a.variants.clone(),
+            attrs: elems("attributes").to_vec(),
+            keys: elems("keywords").to_vec(),
+            tkeys: elems("tfields").to_vec(),
+            tags: elems("tags").to_vec(),
+            variants: elems("variants").to_vec(),
         },
         tag_cap: usize::MAX,
         likely: None,
@@ -423,7 +451,7 @@ fn count_harness() -> Harness {
 /// the calls of one case; `None` = unknown dimension
 fn history_of(dim: &str, sp: &Spec) -> Option<Vec<Act>> {
     let idx = sp.indices();
-    let al = elems(dim);
+    let al = elems_for(dim, sp.n);
     let words = &alphabets().words;
     let list: Vec<S> = idx.iter().map(|&i| al[i]).collect();
     let val = |i: usize| -> Vec<S> { if i % 5 == 4 { vec![] } else { vec![words[(i * 3 + 1) % words.len()]] } };
@@ -491,7 +519,7 @@ fn run_case(h: &Harness, dim: &str, sp: &Spec) -> (u64, Vec<(usize, Fault)>) {
     // the typed constructor route for variant lists: from_parts with the list as given
     if dim == "variants" {
         let idx = sp.indices();
-        let al = elems(dim);
+        let al = elems_for(dim, sp.n);
         let vs: Vec<Variant> = idx.iter().map(|&i| Variant::from_str(al[i]).expect("alphabet variant")).collect();
         let r = guard_total(|| {
             let en = Language::from_str("en").expect("en");
@@ -571,16 +599,108 @@ pub fn run_count_histories(ctx: &Ctx, rep: &mut Report, prefixes: &[&str]) {
     rep.transitions += total_calls;
     rep.traces += total_calls;
     rep.evaluations += total_calls;
+    run_wide_histories(ctx, rep, prefixes);
     rep.extra.insert(
         "E3_count".into(),
         json!({
             "kind": "count ladder through the typed API: for every list dimension and every list of n = 0..=n_max distinct elements in the orders asc / desc / every rotation / a fixed scramble (and, for whole-list calls, with a second copy of element i inserted at position j for every i, j; n <= rep_max): whole-list calls (from_parts, set_variants, set_tlang, set_keyword(k, list), set_tfield(k, list)) and element-by-element linear histories (insert all, insert all again, remove all in a rotated order; private tags as a multiset), every intermediate state checked with the per-state invariants of the E3 harnesses against the reference model",
-            "n_max": n_max, "rep_max": rep_max, "alphabet_size": ALPHABET_SIZE, "cases": total_cases, "calls": total_calls, "dimensions": per_dim,
+            "n_max": n_max, "rep_max": rep_max, "alphabet_size": ALPHABET_SIZE, "probed_prefix": PROBE_PREFIX, "cases": total_cases, "calls": total_calls, "dimensions": per_dim,
         }),
     );
 }
 
+/// a harness whose probes sit around one list: its first, middle and last elements and the two
+/// alphabet elements just beyond it (non-members)
+fn wide_harness(n: usize) -> Harness {
+    let pick = |al: &[S]| -> Vec<S> {
+        let mut v: Vec<usize> = vec![0, 1, 2, n / 2, n.saturating_sub(3), n.saturating_sub(2), n.saturating_sub(1), n, n + 1, 254, 255, 256, 257];
+        v.retain(|i| *i < al.len());
+        v.sort();
+        v.dedup();
+        v.into_iter().map(|i| al[i]).collect()
+    };
+    Harness {
+        name: "H-count.wide",
+        inits: vec![("default".to_string(), default_state())],
+        menu: vec![],
+        probes: Probes { attrs: pick(elems_for("attributes", n)), keys: pick(elems_for("keywords", n)), tkeys: pick(elems_for("tfields", n)), tags: pick(elems_for("tags", n)), variants: pick(elems_for("variants", n)) },
+        tag_cap: usize::MAX,
+        likely: None,
+    }
+}
+
+/// H-count at the wide counts (2^k - 1, 2^k, 2^k + 1): whole-list calls up to 1025 [4097] elements,
+/// element-by-element histories up to 257 [1025] elements
+pub fn run_wide_histories(ctx: &Ctx, rep: &mut Report, prefixes: &[&str]) {
+    let coll = std::mem::take(&mut rep.collector);
+    let mut cases: Vec<(&'static str, Spec)> = vec![];
+    let counts = wide_counts(ctx.quick());
+    for dim in DIMS {
+        let whole = matches!(dim, "variants" | "tlang_variants" | "keyword_values" | "tfield_values");
+        let cap = if whole { if ctx.quick() { 1025 } else { 4097 } } else if ctx.quick() { 257 } else { 1025 };
+        for &n in &counts {
+            if n > cap || n + 2 > elems_big(dim).len() {
+                continue;
+            }
+            cases.push((dim, Spec { n, kind: 0, a: 0, b: 0 }));
+            cases.push((dim, Spec { n, kind: 1, a: 0, b: 0 }));
+            if whole {
+                cases.push((dim, Spec { n, kind: 4, a: n - 1, b: n }));
+            }
+        }
+    }
+    let st = par_range(ctx, "E3.count.wide", cases.len() as u64, 1, &|i, l| {
+        let (dim, sp) = &cases[i as usize];
+        let h = wide_harness(sp.n);
+        let (calls, faults) = run_case(&h, dim, sp);
+        l.counters[0] += calls;
+        l.nontrivial += 1;
+        for (k, f) in faults {
+            if !prefixes.iter().any(|p| f.sub.starts_with(p)) {
+                continue;
+            }
+            let at = if k == usize::MAX { "from_parts".to_string() } else { format!("call {}", k + 1) };
+            coll.push(((sp.n as u64) << 32) | i, Violation { sub: f.sub, class: format!("[H-count.wide {}] {}", dim, f.class), case: Case::Text(format!("countw:{}:{}", dim, sp.encode())), expected: trunc_s(&f.expected, 400), observed: format!("{} (after {})", trunc_s(&f.observed, 400), at) });
+        }
+    });
+    rep.collector = coll;
+    rep.states += st.local.counters[0];
+    rep.transitions += st.local.counters[0];
+    rep.traces += st.local.counters[0];
+    rep.evaluations += st.local.counters[0];
+    rep.distinct_nontrivial += st.local.nontrivial;
+    rep.extra.insert("E3_count_wide".into(), json!({"kind": "H-count at n = 2^k - 1, 2^k, 2^k + 1 elements (64 .. 1024 [4096]): whole-list calls (from_parts, set_variants, set_tlang, set_keyword(k, list), set_tfield(k, list)) ascending / descending / with a repeat at the end, and element-by-element histories (insert all, insert all again, remove all) up to 257 [1025] elements, every intermediate state checked; probes around the ends of the list and at positions 254..257",
+        "cases": cases.len(), "calls": st.local.counters[0], "wall_s": (st.wall * 100.0).round() / 100.0}));
+}
+
+fn trunc_s(s: &str, n: usize) -> String {
+    if s.len() <= n {
+        s.to_string()
+    } else {
+        let mut e = n;
+        while !s.is_char_boundary(e) {
+            e -= 1;
+        }
+        format!("{}... ({} bytes)", &s[..e], s.len())
+    }
+}
+
 pub fn replay(text: &str, coll: &Collector) {
+    if let Some(rest) = text.strip_prefix("countw:") {
+        let mut it = rest.splitn(2, ':');
+        let (Some(dim), Some(spec)) = (it.next(), it.next()) else { return };
+        let Some(sp) = Spec::decode(spec) else { return };
+        if !DIMS.contains(&dim) || sp.n + 2 > elems_big(dim).len() {
+            return;
+        }
+        let h = wide_harness(sp.n);
+        let (_, faults) = run_case(&h, dim, &sp);
+        for (k, f) in faults {
+            let at = if k == usize::MAX { "from_parts".to_string() } else { format!("call {}", k + 1) };
+            coll.push(0, Violation { sub: f.sub, class: format!("[H-count.wide {}] {}", dim, f.class), case: Case::Text(text.to_string()), expected: trunc_s(&f.expected, 400), observed: format!("{} (after {})", trunc_s(&f.observed, 400), at) });
+        }
+        return;
+    }
     let Some(rest) = text.strip_prefix("count:") else { return };
     let mut it = rest.splitn(2, ':');
     let (Some(dim), Some(spec)) = (it.next(), it.next()) else { return };
